@@ -50,6 +50,10 @@ TraceNext ==
        \* ... at the end: every drain was exact and together they yielded every value pushed (never more than Cap per cycle)
        [] Ev = "overlap.final"   -> Obs(/\ cpc = "swap" /\ consumes = A[2] /\ ~dirty /\ StrictDrainsExact
                                         /\ LET S == UNION {Range(drains[i].vals) : i \in DOMAIN drains} IN Cardinality(S) = A[1])
+       \* real-parallel hammer run: no push panicked, and every overflowing push drew from the range its own index prescribes
+       [] Ev = "hammer"          -> Obs(/\ A[2] = 0
+                                        /\ Rec[l].bad = <<>>
+                                        /\ \A i \in DOMAIN Rec[l].good : Rec[l].good[i][2] = Upper(Rec[l].good[i][1]))
        [] Ev = "final"           -> Obs(TRUE)
        [] OTHER -> FALSE         \* panic / livelock / stuck / unknown site
 
